@@ -17,6 +17,15 @@ CLAIMS = {
              "the ideal layer only. Model checking is the right level: the property quantifies over schedules and histories.",
         note="trusted: TLC, CommunityModules JSON, the harness renderer/projection (views are real reads in the real thread); "
              "pre-emption unit is one source line of config.py; identifiers are supplied by the harness"),
+    "C17": dict(
+        design="5/C17, 3.6",
+        technique="TLA+ model checking (TLC) of Server.tla over every path spelling + replay of every TLC-enumerated request into the real WSGI app on a scratch tree + TLC trace validation of responses",
+        text="TLC enumerates every path of up to 4 (thorough 5) segments over 13 segment kinds, evaluates the containment clauses for "
+             "every route x spelling on the specified gate/handlers, and prints the machine's answer per request; every such request "
+             "(x root setting x file-content variant) is sent to the real application against a scratch tree with marker files; "
+             "responses that differ from the machine and a random sample are decided by Trace_Server against the ideal clauses.",
+        note="trusted: TLC, the scratch-tree builder and the marker/witness scan of the response (status, headers, body); no symlinks in the tree; "
+             "equal-to-machine responses are accepted on the strength of O1"),
 }
 
 NOT_YET = "check not built yet in this round; planned as described in DESIGN.md section 5"
